@@ -32,6 +32,36 @@ Theorem C20_chunking : forall (tok : list Z -> tokres),
 Proof. exact chunking_bounded. Qed.
 Print Assumptions C20_chunking.
 
+(* timed delivery: a gap after every fragment, the event loop polling
+   tickit_term_input_check_timeout_msec after every gap.  As long as every single gap stays below
+   the wait time -- however long the fragments take together -- no poll forces a time-out
+   (timed_run is not None) and the events and the final input state are those of the whole
+   stream pushed at once.  The deadline is re-armed on every AGAIN. *)
+Theorem C20_timed_chunking : forall (tok : list Z -> tokres),
+  (forall b m k n, tok b = TKey k n -> tok (b ++ m) = TKey k n) ->
+  (forall b k n, tok b = TKey k n -> (0 < n <= length b)%nat) ->
+  forall cap : nat, (0 < cap)%nat ->
+  (forall b, tok b = TAgain -> (length b < cap)%nat) ->
+  (forall b, tok b = TNone -> b = []) ->
+  forall wait steps c g now ts,
+  (forall c0 gap, In (c0, gap) ((c, g) :: steps) -> 0 <= gap < wait) ->
+  (length (i_buf (t_in ts)) < cap)%nat ->
+  match push_bytes tok cap (t_in ts) (concat (map fst ((c, g) :: steps))) with
+  | Some (evs, s') => exists ms d, timed_run tok cap wait false now ts ((c, g) :: steps) = Some (evs, ms, mkT s' d)
+  | None => timed_run tok cap wait false now ts ((c, g) :: steps) = None
+  end.
+Proof. exact timed_chunking. Qed.
+Print Assumptions C20_timed_chunking.
+
+(* the variant that keeps a deadline that is already running (wait counted from the FIRST
+   fragment) forces a time-out with three fragments 30 ms apart *)
+Theorem C20_timed_refuted_stale_deadline :
+  timed_run esc_tok 256 50000 true 0 tst0 [([27], 30000); ([91], 30000); ([65], 0)] = None /\
+  timed_run esc_tok 256 50000 false 0 tst0 [([27], 30000); ([91], 30000); ([65], 0)] =
+    Some ([EvKey KEYEV_KEY 0 [85; 112]], [20; 20; -1], mkT (mkI [] 0 false) None).
+Proof. exact stale_deadline_refuted. Qed.
+Print Assumptions C20_timed_refuted_stale_deadline.
+
 (* ... and those events are the translations, one after the other, of the keys the tokenizer
    finds in the buffer *)
 Theorem C20_events_of_keys : forall (tok : list Z -> tokres),
